@@ -79,6 +79,14 @@ def run_case(case):
     bdesc = {'source': src, 'atoms': len(sig), 'conditionals': len(conds)}
     if len(conds) <= 8:
         bdesc.update(base_desc(sig, conds))
+    # a share of the small cases evaluates the batch in worker processes: the back-end is then chosen and
+    # driven inside the worker
+    par = {'multi_inference': True} if (small and rng.random() < 0.1) else {}
+    if par:
+        bump('cases_evaluated_in_parallel')
+        x = fml.V(rng.choice(sig))
+        qs = qs[:3] + [(fml.rand_formula(rng, sig, 0, 0.0), fml.And(x, fml.Not(x))),
+                       (fml.Or(x, fml.Not(x)), fml.rand_formula(rng, sig, 1, 0.0))]
     engs = case['engines']
     backends = ['z3', 'rc2'] + ['rc2-' + e for e in engs]
     spell = rng.choice(['RC2', 'Rc2-' + rng.choice(engs).upper(), 'Z3'])
@@ -100,7 +108,7 @@ def run_case(case):
             if system == 'c-inference' and p.lower() == 'z3':
                 continue
             try:
-                cols[p] = impl.results(impl.ask(impl.mk_bb(sig, conds), system, p, impl.mk_queries(qs), weakly=weakly))
+                cols[p] = impl.results(impl.ask(impl.mk_bb(sig, conds), system, p, impl.mk_queries(qs), weakly=weakly, **par))
             except Exception as e:
                 if type(e).__name__ == 'SoftTimeout':
                     raise
